@@ -47,7 +47,8 @@ sources = st.one_of(
     st.sampled_from(SPECIFIC).map(lambda t: ['src', t[0], t[1], t[2]]),
 )
 literals = st.sampled_from(CODES8).map(lambda c: ['errlit', c])
-num_leaf = st.one_of(st.sampled_from(['1', '2', '3', '5', '7', '10', '0']).map(lambda s: ['num', s]), st.sampled_from(['v_a', 'v_b']).map(lambda n: ['var', n]), st.just(['cell', 'B2']))
+num_leaf = st.one_of(st.sampled_from(['1', '2', '3', '5', '7', '10', '0']).map(lambda s: ['num', s]), st.sampled_from(['v_a', 'v_b']).map(lambda n: ['var', n]), st.just(['cell', 'B2']),
+                     st.sampled_from(['1', '2', '3', '5', '7', '10', '0']).map(lambda s: ['num', s]), st.sampled_from([['str', 'abc', '"'], ['str', 'n/a', '"'], ['str', 'x y', '"']]))      # text that is not a number: #VALUE! under arithmetic, unless the other operand is an error
 OPS_ALL = ['+', '-', '*', '/', '+', '-', '*', '/', '=', '<>', '<', '>', '<=', '>=', '&']
 
 
